@@ -304,10 +304,50 @@ class _AnySize(dict):
         return self.size
 
 
+def adjuster_sweep(case):
+    """The real ChunksizeAdjuster on many (chunksize, size) pairs: result within limits, <= 10000 parts, and unchanged
+    when the configured value already satisfied every limit."""
+    from s3transfer.utils import ChunksizeAdjuster
+
+    rng = random.Random(case['seed'])
+    adj = ChunksizeAdjuster()
+    viol = []
+    n = 0
+    edge_chunks = [1, MIN_P - 1, MIN_P, MIN_P + 1, 8 * MB, 7 * MB + 1, 64 * MB, MAX_P - 1, MAX_P, MAX_P + 1, 6 * GB]
+    for i in range(case['count']):
+        C = rng.choice(edge_chunks) if rng.random() < 0.6 else rng.randrange(1, 6 * GB)
+        clamp = min(max(C, MIN_P), MAX_P)
+        r = rng.random()
+        if r < 0.5:
+            k = rng.choice([1, 2, 3, 4, 5, 6, 7])
+            base = MAX_N * (2 ** k) * rng.choice([C, clamp])
+            size = base + rng.choice([-1, 0, 1, rng.randrange(1, max(2, C))])
+        elif r < 0.8:
+            size = rng.randrange(0, 5 * TB + 1)
+        else:
+            size = rng.choice([MAX_N, MAX_N + 1, 2 * MAX_N + 1, 3 * MAX_N - 1]) * rng.choice([C, clamp]) + rng.choice([-1, 0, 1])
+        size = max(0, min(size, 5 * TB))
+        eff = adj.adjust_chunksize(C, size)
+        n += 1
+        parts = math.ceil(size / eff) if eff else 0
+        ctx = f'ChunksizeAdjuster.adjust_chunksize({C}, {size}) = {eff}'
+        if not (MIN_P <= eff <= MAX_P):
+            viol.append(V(f'{ctx}: outside [{MIN_P}, {MAX_P}]', sym='part-size-limit', kind='adjuster', front_end='adjuster', scaled=False))
+        elif parts > MAX_N:
+            viol.append(V(f'{ctx}: {parts} parts, more than {MAX_N}', sym='too-many-parts', kind='adjuster', front_end='adjuster', scaled=False))
+        elif MIN_P <= C <= MAX_P and math.ceil(size / C) <= MAX_N and eff != C:
+            viol.append(V(f'{ctx}: changed although no limit required it', sym='needless-adjust', kind='adjuster', front_end='adjuster', scaled=False))
+        if len(viol) >= 5:
+            break
+    return viol, n
+
+
 def gen_cases(tier, seed):
     rng = random.Random(seed)
     quick = tier == 'quick'
     cases = []
+    for i in range(16):
+        cases.append({'type': 'adjuster', 'seed': rng.randrange(1 << 30), 'count': 20000 if quick else 200000})
     pairs = [(T, C) for T in range(1, 17) for C in range(1, 17)]
     if quick:
         rng.shuffle(pairs)
@@ -328,13 +368,14 @@ def gen_cases(tier, seed):
             base = {0, 1, 5 * MB - 1, 5 * MB, 5 * MB + 1, 8 * MB - 1, 8 * MB, 8 * MB + 1, 5 * GB - 1, 5 * GB, 5 * GB + 1, 50 * GB, 5 * TB - 1, 5 * TB}
             for k in (2, 3, 7, 100):
                 base |= {k * clamp - 1, k * clamp, k * clamp + 1}
-            big = {MAX_N * clamp - 1, MAX_N * clamp, MAX_N * clamp + 1, 9999 * clamp + 1, (MAX_N // 2) * clamp + 1}
+            big = {MAX_N * clamp - 1, MAX_N * clamp, MAX_N * clamp + 1, 9999 * clamp + 1, (MAX_N // 2) * clamp + 1,
+                   2 * MAX_N * clamp + 1, 4 * MAX_N * clamp + 1, (2 * MAX_N + 1) * clamp, 3 * MAX_N * clamp - 1}
             szs = sorted(s for s in base if 0 <= s <= 5 * TB)
             # keep request counts affordable: a plan with P parts costs ~P requests
             cheap = [s for s in szs if math.ceil(s / clamp) <= 300]
             costly = [s for s in szs if math.ceil(s / clamp) > 300] + [s for s in big if s <= 5 * TB]
             if quick:
-                costly = rng.sample(costly, min(1, len(costly)))
+                costly = rng.sample(costly, min(2, len(costly)))
             for kind in ('upload', 'copy'):
                 cases.append({'type': 'mgr', 'kind': kind, 'T': T, 'C': C, 'sizes': cheap})
                 for s in costly:
@@ -359,6 +400,10 @@ def gen_cases(tier, seed):
 
 def run_case(case):
     fatal = False
+    if case['type'] == 'adjuster':
+        viol, n = adjuster_sweep(case)
+        return {'verdict': 'violated' if viol else 'held', 'key': f'adjuster-{case["seed"]}', 'violations': viol, 'stats': {'adjuster_inputs': n},
+                'summary': {'type': 'adjuster', 'inputs': n}}
     if case['type'] == 'mgr':
         viol, stats, keys = run_manager(case)
     else:
